@@ -17,23 +17,39 @@ def main():
   assert jax.local_device_count() == job['devices'], (jax.local_device_count(), job['devices'])
   L = job['maxlen']
 
+  def is_key(x):
+    return hasattr(x, 'dtype') and jax.dtypes.issubdtype(x.dtype, jax.dtypes.prng_key)
+
+  def to_np(x):
+    return np.array(jax.random.key_data(x)) if is_key(x) else np.array(x)
+
   def client_init(shared, ci):
     seq = jnp.zeros((L,), jnp.int32).at[0].set(ci['cid'])
-    return {'seq': seq, 'cnt': jnp.int32(1), 'vec': jnp.zeros((2,), jnp.float32) + ci['bias'], 'flag': ci['cid'] > 0,
-            'h': ci['cid'].astype(jnp.uint32)}
+    st = {'seq': seq, 'cnt': jnp.int32(1), 'vec': jnp.zeros((2,), jnp.float32) + ci['bias'], 'flag': ci['cid'] > 0,
+          'h': ci['cid'].astype(jnp.uint32)}
+    if 'rk' in ci:
+      st['rk'] = ci['rk']     # a new-style typed key travels through the client state
+    return st
 
   def client_step(state, batch):
     q = 1.0 / batch['d']   # inf on an all-zero padding batch: a leaked padding step poisons vec
     new = {'seq': state['seq'].at[state['cnt']].set(batch['tok']), 'cnt': state['cnt'] + 1,
            'vec': state['vec'] + batch['v'] * q, 'flag': state['flag'], 'h': state['h'] * jnp.uint32(31) + batch['tok'].astype(jnp.uint32)}
-    return new, {'before': state['cnt'], 'tok': batch['tok'], 'q': q}
+    res = {'before': state['cnt'], 'tok': batch['tok'], 'q': q}
+    if 'rk' in state:
+      new['rk'] = state['rk']
+      res['bk'] = jax.random.key_data(batch['bk'])[-1]
+    return new, res
 
   def client_step_noresult(state, batch):
     return client_step(state, batch)[0]
 
   def client_final(shared, state):
-    return {'seq': state['seq'], 'cnt': state['cnt'], 'vec': state['vec'] + shared['base'], 'flag': state['flag'], 'h': state['h'],
-            'k': shared['k']}
+    o = {'seq': state['seq'], 'cnt': state['cnt'], 'vec': state['vec'] + shared['base'], 'flag': state['flag'], 'h': state['h'],
+         'k': shared['k']}
+    if 'rk' in state:
+      o['kd'] = jax.random.key_data(state['rk'])[-1]
+    return o
 
   out = []
   for case in job['cases']:
@@ -48,6 +64,11 @@ def main():
         for c, n in enumerate(nb, start=1):
           ci = {'cid': mk(np.int32(c)), 'bias': mk(np.float32(c * 0.5))}
           batches = [{'tok': mk(np.int32(c * 16 + jj)), 'v': mk(np.array([c, jj], np.float32)), 'd': mk(np.float32(1.0))} for jj in range(1, n + 1)]
+          if case.get('typed_keys'):
+            # new-style typed PRNG keys (jax.random.key) as leaves of the client input and of every batch
+            ci['rk'] = jax.random.key(c)
+            for b_ in batches:
+              b_['bk'] = jax.random.key(int(b_['tok']))
           clients.append((ID_POOL[c - 1] if odd else c, batches, ci))
         order = case.get('order') or list(range(len(clients)))
         listed = [clients[i] for i in order]
@@ -62,11 +83,11 @@ def main():
               else:
                 shared['base'] += 1
                 shared['k'] += 1
-            snap = jax.tree_util.tree_map(lambda x: np.array(x), (shared, [(b, ci) for _, b, ci in listed]))
+            snap = jax.tree_util.tree_map(to_np, (shared, [(b, ci) for _, b, ci in listed]))
           except RuntimeError:
             break    # an earlier call deleted (donated) a caller array: already recorded as inputs_alive = False
           rec = {'nb': nb, 'backend': backend, 'with_step_result': with_res, 'order': order, 'yields': [], 'error': None,
-                 'call': call, 'base': 1000. + call, 'k': 7 + call}
+                 'call': call, 'base': 1000. + call, 'k': 7 + call, 'typed_keys': bool(case.get('typed_keys'))}
           try:
             if fn is None:
               with fec.for_each_client_backend(backend):
@@ -91,6 +112,8 @@ def main():
                    'h': int(o['h']), 'k': int(o['k']), 'finite': finite}
               if res is not None:
                 y['res'] = [{'before': int(r['before']), 'tok': int(r['tok']), 'q': float(r['q'])} for r in res]
+              if case.get('typed_keys'):
+                y['keys_ok'] = int(o['kd']) == y['id'] and (res is None or all(int(r['bk']) == int(r['tok']) for r in res))
               rec['yields'].append(y)
           except Exception as ex:  # pylint: disable=broad-except
             rec['error'] = f'{type(ex).__name__}: {ex}'[:300]
@@ -100,7 +123,7 @@ def main():
           for a, b in zip(flat_now, flat_old):
             if hasattr(a, 'is_deleted') and a.is_deleted():
               alive = False
-            elif not np.array_equal(np.asarray(a), b):
+            elif not np.array_equal(to_np(a), b):
               same = False
           rec['inputs_alive'], rec['inputs_unchanged'] = alive, same
           out.append(rec)
